@@ -6,6 +6,7 @@ import (
 
 	"github.com/gabriel-vasile/mimetype/internal/verifsim/core"
 	"github.com/gabriel-vasile/mimetype/internal/verifsim/inputs"
+	"github.com/gabriel-vasile/mimetype/internal/verifsim/lib"
 	"github.com/gabriel-vasile/mimetype/internal/verifsim/model"
 	"github.com/gabriel-vasile/mimetype/internal/verifsim/simio"
 )
@@ -84,6 +85,9 @@ type extGen struct {
 	// under every interleaving).
 	dupName    map[string]bool
 	parentName map[string]bool
+	// charsetNamesOn: this run registers extensions named like the charset-bearing
+	// built-ins; it then never looks those three names up nor attaches through them.
+	charsetNamesOn bool
 }
 
 func (g *extGen) pred(target []string) model.Pred {
@@ -173,8 +177,21 @@ func (g *extGen) ext() *model.Ext {
 			attached = true
 		}
 	}
+	if g.r.Chance(1, 5) && g.charsetNamesOn {
+		// an extension may re-use the name of a charset-bearing built-in type; such a
+		// name is never looked up and never serves as a parent handle here (which of
+		// the equally named nodes Lookup reaches first depends on the built-in layout)
+		nm := lib.CharsetNames[g.r.Intn(len(lib.CharsetNames))]
+		if !g.dupName[nm] {
+			e.Mime = nm
+			g.dupName[nm] = true
+		}
+	}
 	if !attached {
 		p := parents[g.r.Intn(len(parents))]
+		for g.charsetNamesOn && lib.IsCharsetName(p.Name) {
+			p = parents[g.r.Intn(len(parents))]
+		}
 		e.Parent, target = p.Name, p.Fams
 	}
 	e.Pred = g.pred(target)
@@ -212,6 +229,9 @@ func randDelivery(r *core.Rand, n int, faultChance int) *simio.Delivery {
 	if faultChance > 0 && r.Chance(faultChance, 100) {
 		d.FaultAt = r.Range(0, n)
 		d.FaultWithData = r.Chance(1, 2)
+		if r.Chance(1, 4) {
+			d.ErrWraps = 1 + r.Intn(2)
+		}
 	}
 	return d
 }
@@ -291,4 +311,16 @@ func (g *extGen) acceptingOn(parent string, on *model.Ext, x []byte) *model.Ext 
 	e.SpareCap = g.r.Intn(3)
 	g.made = append(g.made, e)
 	return e
+}
+
+// lookupNames are the names of an extension that may be given to Lookup in a
+// generated operation: everything except a re-used charset-bearing built-in name.
+func lookupNames(e *model.Ext) []string {
+	var out []string
+	for _, n := range e.Names() {
+		if !lib.IsCharsetName(n) {
+			out = append(out, n)
+		}
+	}
+	return out
 }
